@@ -108,6 +108,8 @@ def build_system(spec):
         letters = tuple(arr)
         fn = flow_fn(fl[3] if len(fl) > 3 else k, letters)
         ds = dims_obj(letters)
+        if k in spec.get("zero_flows", []):  # an all-zero flow still takes part in the balance (and narrows the common dims)
+            fn = lambda lab: 0.0
         v = S.ndarray_for(letters, ITEMS, fn, "C")
         name = f"F{k+1}"
         flows[name] = flodym.Flow(from_process=procs[PROC_NAMES[src]], to_process=procs[PROC_NAMES[dst]], name=name, dims=ds, values=v)
@@ -254,6 +256,14 @@ def run_graph_case(spec, probe):
     if st == "raised":
         return fail("build", f"building the system raised {built}")
     mfa, model = built
+    if name == "inf-elsewhere":
+        # an infinite value in a stock that is attached to no process does not enter any balance; the
+        # default tolerance must stay finite, so a real imbalance is still reported
+        import flodym as _fl
+
+        st_inf = _fl.SimpleFlowDrivenStock(dims=dims_obj("t"), name="loose", process=None)
+        st_inf.stock.values[...] = np.inf
+        mfa.stocks["loose"] = st_inf
     if name.startswith("nan"):
         if not spec["flows"]:
             return "n/a", None
@@ -281,7 +291,7 @@ def run_graph_case(spec, probe):
         fails = has_nan
         if M == 0:
             return "n/a", None
-    elif name == "default":
+    elif name in ("default", "inf-elsewhere"):
         tol = None
         fails = M > default_tol(model) or has_nan
     elif name == "nan-explicit":
@@ -301,14 +311,19 @@ def run_graph_case(spec, probe):
     return "verdict-" + want, None
 
 
-PROBES = [("above", True), ("above", False), ("below", True), ("below", False), ("exact", True), ("default", True), ("default", False), ("nan-explicit", True), ("nan-explicit", False), ("nan-default", True)]
+PROBES = [("inf-elsewhere", True), ("above", True), ("above", False), ("below", True), ("below", False), ("exact", True), ("default", True), ("default", False), ("nan-explicit", True), ("nan-explicit", False), ("nan-default", True)]
 
 
 def run_graphs(u, res):
     ms = list(flow_multisets(u["nproc"], u["kmax"]))[u["lo"] : u["hi"]]
     for flows in ms:
-        for sc in stock_configs(u["nproc"]):
-            spec = dict(nproc=u["nproc"], flows=[list(f) for f in flows], stocks=[list(s) for s in sc])
+        variants = [[]]
+        if len(flows) == 2 and set(flows[0][2]) != set(flows[1][2]):
+            variants += [[0], [1]]
+        for sc, zf in [(sc, zf) for sc in stock_configs(u["nproc"]) for zf in variants]:
+            if zf and sc not in ([], stock_configs(u["nproc"])[1]):
+                continue
+            spec = dict(nproc=u["nproc"], flows=[list(f) for f in flows], stocks=[list(s) for s in sc], zero_flows=zf)
             for probe in PROBES:
                 oc, f = run_graph_case(spec, probe)
                 if oc == "n/a":
@@ -421,7 +436,7 @@ def run_straddle(u, res):
 
 # ---- check_flows ----------------------------------------------------------------------------------
 
-FLOW_STATES = ("clean", "nan", "neg-small", "neg-big")
+FLOW_STATES = ("clean", "nan", "neg-small", "neg-big", "posinf")
 
 
 def run_flows_case(spec, states, exceptions, raise_error, verbose):
@@ -443,6 +458,8 @@ def run_flows_case(spec, states, exceptions, raise_error, verbose):
             f.values[idx] = -0.25 * tol
         elif stt == "neg-big":
             f.values[idx] = -4.0 * tol
+        elif stt == "posinf":
+            f.values[idx] = np.inf  # neither NaN nor negative: not flagged, and must not blind the check for other flows
         excepted = name in exceptions or PROC_NAMES[fl[0]] in exceptions or PROC_NAMES[fl[1]] in exceptions
         if stt in ("nan", "neg-big") and not excepted:
             expected.add(name)
